@@ -12,6 +12,7 @@ import FeatModel.Lemmas.C08IluOffs
 import FeatModel.Lemmas.C08IluBlocked
 import FeatModel.Lemmas.C08IluSymbolic0
 import FeatModel.Lemmas.C08IluSymbolic
+import FeatModel.Lemmas.C08IluLevels
 /-!
 # C08 — preconditioners apply exactly their defining linear operator (property theorems)
 
@@ -22,9 +23,7 @@ correspondence run ties them to `SORPrecond`, `SSORPrecond`, `JacobiPrecond`, `I
 `Csr.entry i j`; `sortedDiag` is the documented precondition (square, sorted rows, stored diagonal); the correction
 filter is `filterCor` (unit filter: listed components are set to zero).
 
-Not proved here (observed by the correspondence run and the independent oracle only): that the pattern produced by
-`factorizeSymbolic p` is EXACTLY the textbook level-of-fill-p pattern (well-shaped, sorted, ⊇ matrix pattern is proved),
-the blocked ILU factorisation `L·U = A` (its solves are proved over an arbitrary ring; the factorisation is compared
+Not proved here (observed by the correspondence run and the independent oracle only): the blocked ILU factorisation `L·U = A` (its solves are proved over an arbitrary ring; the factorisation is compared
 with the model run at bs×bs blocks), and the BCSR Jacobi / matrix variants.
 -/
 open Finset FeatModel.LA FeatModel.Solver
@@ -276,19 +275,36 @@ theorem C08.ilu_complete {α : Type} [Field α] (s : IluSym) (hs : s.wf = true) 
       = A.entry i c :=
   C08.ilu_factor s hs hso A hA hn hcov prev hprev hpiv i c hi hc (hfull i c hi hc)
 
+/-- level bookkeeping of `_insert`: on a sorted row region, re-inserting a column never raises its level — the entry
+    ends up with the MINIMUM of its old level and the new one (the new one if it was absent), all other columns keep
+    their levels, and the index / level arrays stay aligned. -/
+theorem C08.insert_keeps_min_level (idx lvl : Array Nat) (b start c l : Nat) (hsz : lvl.size = idx.size)
+    (hb : b ≤ start) (hstart : start ≤ idx.size)
+    (hsorted : ∀ k, b ≤ k → k + 1 < idx.size → idx.getD k 0 < idx.getD (k + 1) 0)
+    (hbefore : ∀ k, b ≤ k → k < start → idx.getD k 0 < c) :
+    (insertEntry idx lvl start c l).2.1.size = (insertEntry idx lvl start c l).1.size ∧
+    regionLevel (insertEntry idx lvl start c l).1 (insertEntry idx lvl start c l).2.1 b c
+      = levMin (regionLevel idx lvl b c) (some l) ∧
+    ∀ x, x ≠ c → regionLevel (insertEntry idx lvl start c l).1 (insertEntry idx lvl start c l).2.1 b x
+      = regionLevel idx lvl b x :=
+  insertEntry_levels idx lvl b start c l hsz hb hstart hsorted hbefore
+
 /-- SYMBOLIC ILU(p): for every matrix with sorted rows and stored diagonal and EVERY fill level `p`, `set_struct_csr`
     does not throw and `factorize_symbolic(p)` yields a well-shaped structure (`wf`: proper offsets, `L` strictly lower,
     `U` strictly upper, columns in range) with strictly increasing (hence duplicate-free) rows that contains the pattern
-    of the matrix — exactly the hypotheses of `C08.ilu_solve_spec`, `C08.ilu_factor`.
-    (`_partial`: that the pattern is exactly the textbook level-of-fill-`p` pattern is checked by the independent
-    oracle on every case, not proved.) -/
-theorem C08.ilu_symbolic_partial {α : Type} (A : Csr α) (hA : sortedDiag A = true) (p : Int) :
+    of the matrix, and its pattern is EXACTLY the textbook level-of-fill-`p` pattern: `(i, j)` is stored iff its level
+    `levelOf p` (`lev = 0` on the matrix pattern, `lev(i,j) = min(lev(i,j), lev(i,k) + lev(k,j) + 1)` over the pivots
+    `k < min(i,j)` in ascending order, levels above `p` dropped) exists. -/
+theorem C08.ilu_symbolic {α : Type} (A : Csr α) (hA : sortedDiag A = true) (p : Int) :
     ∃ s0, setStructCsr A.rows A.rowPtr A.colInd = some s0 ∧ (factorizeSymbolic s0 p).n = A.rows
       ∧ (factorizeSymbolic s0 p).wf = true ∧ (factorizeSymbolic s0 p).sorted = true
-      ∧ (factorizeSymbolic s0 p).covers A = true := by
+      ∧ (factorizeSymbolic s0 p).covers A = true
+      ∧ ∀ i j, i < A.rows → j < A.rows →
+          ((factorizeSymbolic s0 p).inPattern i j ↔ (levelOf p.toNat s0 i j).isSome = true) := by
   obtain ⟨s0, h0, hn, hw, hs, hc⟩ := setStructCsr_spec A hA
   obtain ⟨g1, g2, g3, g4⟩ := factorizeSymbolic_spec (α := α) s0 hw hs p
-  exact ⟨s0, h0, g1.trans hn, g2, g3, g4 A hc⟩
+  exact ⟨s0, h0, g1.trans hn, g2, g3, g4 A hc,
+    fun i j hi hj => factorizeSymbolic_levels s0 hw hs p i j (hn ▸ hi) (hn ▸ hj)⟩
 
 /-- the ILU factor clause for the whole executed chain `set_struct_csr → factorize_symbolic(p) → copy_data_csr (in
     place, any previous content) → factorize_numeric_il_du`: for every matrix with sorted rows and stored diagonal,
@@ -313,10 +329,40 @@ theorem C08.ilu_factor_full {α : Type} [Field α] (p : Int) (A : Csr α) (hA : 
          else ((factorizeSymbolic s0 p).matU
               (factorizeNumeric (factorizeSymbolic s0 p) (copyDataCsr (factorizeSymbolic s0 p) A prev))).entry i c)
       = A.entry i c := by
-  obtain ⟨s0', h0', hn, hw, hs, hcov⟩ := C08.ilu_symbolic_partial A hA p
+  obtain ⟨s0', h0', hn, hw, hs, hcov, _⟩ := C08.ilu_symbolic A hA p
   rw [h0] at h0'
   cases h0'
   exact C08.ilu_factor _ hw hs A hA hn hcov prev hprev hpiv i c hi hc hp
+
+/-- "ILU(p) is exact once level `p` is complete": if every position has a level `≤ p` in the textbook table, the
+    executed chain yields `(I+L)(D+U) = A` EVERYWHERE (so the solve of `C08.ilu_solve_spec` is `A⁻¹`). -/
+theorem C08.ilu_complete_at_level {α : Type} [Field α] (p : Int) (A : Csr α) (hA : sortedDiag A = true) (s0 : IluSym)
+    (h0 : setStructCsr A.rows A.rowPtr A.colInd = some s0)
+    (hlev : ∀ i j, i < A.rows → j < A.rows → (levelOf p.toNat s0 i j).isSome = true)
+    (prev : IluNum α) (hprev : prev.Sz (factorizeSymbolic s0 p))
+    (hpiv : ∀ i, i < (factorizeSymbolic s0 p).n →
+      (factorizeNumeric (factorizeSymbolic s0 p) (copyDataCsr (factorizeSymbolic s0 p) A prev)).dataD.getD i 0 ≠ 0)
+    (i c : Nat) (hi : i < (factorizeSymbolic s0 p).n) (hc : c < (factorizeSymbolic s0 p).n) :
+    ∑ k ∈ range (min i c),
+        ((factorizeSymbolic s0 p).matL
+            (factorizeNumeric (factorizeSymbolic s0 p) (copyDataCsr (factorizeSymbolic s0 p) A prev))).entry i k
+        * ((factorizeSymbolic s0 p).matU
+            (factorizeNumeric (factorizeSymbolic s0 p) (copyDataCsr (factorizeSymbolic s0 p) A prev))).entry k c
+      + (if c < i then ((factorizeSymbolic s0 p).matL
+              (factorizeNumeric (factorizeSymbolic s0 p) (copyDataCsr (factorizeSymbolic s0 p) A prev))).entry i c
+            * (1 / (factorizeNumeric (factorizeSymbolic s0 p)
+                (copyDataCsr (factorizeSymbolic s0 p) A prev)).dataD.getD c 0)
+         else if c = i then 1 / (factorizeNumeric (factorizeSymbolic s0 p)
+                (copyDataCsr (factorizeSymbolic s0 p) A prev)).dataD.getD i 0
+         else ((factorizeSymbolic s0 p).matU
+              (factorizeNumeric (factorizeSymbolic s0 p) (copyDataCsr (factorizeSymbolic s0 p) A prev))).entry i c)
+      = A.entry i c := by
+  obtain ⟨s0', h0', hn, _, _, _, hlv⟩ := C08.ilu_symbolic A hA p
+  rw [h0] at h0'
+  cases h0'
+  have hi' : i < A.rows := hn ▸ hi
+  have hc' : c < A.rows := hn ▸ hc
+  exact C08.ilu_factor_full p A hA s0 h0 prev hprev hpiv i c hi hc ((hlv i c hi' hc').mpr (hlev i c hi' hc'))
 
 /-- blocked ILU (`ILUCoreBlocked::solve_il / solve_du`): the same model functions `solveIl` / `solveDu` / `iluSolve`,
     run by `drv_c08` at the ring of bs×bs rational blocks against the real BCSR code, over an arbitrary
